@@ -80,8 +80,14 @@ def run(tier):
     open(cfgp, "w").write("SPECIFICATION Spec\nCONSTANTS\n  Spd = 4\n  Sdf = 2\n  Eps = 4\n  Sumdf = 2\n  MaxSamples = %d\n  Sizes = {1, 3, 4, 9}\n"
                           "INVARIANT Inv\nCHECK_DEADLOCK FALSE\n" % (70 if thorough else 44))
     r = C.tlc("JlsWriterMC", cfgp, timeout=1800, heap="8g")
-    if not ck.add_mc("JlsWriter (FSR chunk emission: tiling, index entries, nothing pending after close)", r):
+    if not ck.add_mc("JlsWriter spd=4 sdf=2 eps=4 sumdf=2 (chunk emission: tiling, index entries, nothing pending after close, reader descent finds every sample)", r):
         ck.violation({"where": "model", "config": "JlsWriterMC", "invariant": r.violated, "reason": "JlsWriter.tla violates " + str(r.violated)})
+    cfgp2 = C.os.path.join(C.scratch(), "JlsWriterMC_c05b.cfg")
+    open(cfgp2, "w").write("SPECIFICATION Spec\nCONSTANTS\n  Spd = 6\n  Sdf = 2\n  Eps = 6\n  Sumdf = 3\n  MaxSamples = %d\n  Sizes = {1, 5, 6, 13}\n"
+                           "INVARIANT Inv\nCHECK_DEADLOCK FALSE\n" % (120 if thorough else 62))
+    r = C.tlc("JlsWriterMC", cfgp2, timeout=1800, heap="8g")
+    if not ck.add_mc("JlsWriter spd=6 sdf=2 eps=6 sumdf=3", r):
+        ck.violation({"where": "model", "config": "JlsWriterMC-b", "invariant": r.violated, "reason": "JlsWriter.tla violates " + str(r.violated)})
     vw = C.validate_trace_parallel("JlsWriterTrace", "JlsWriterTrace.cfg", trace, parts=12, timeout=1800)
     ck.log("tier-B conformance with JlsWriter.tla: %d events, %d file(s) whose FSR chunk sequence differs from the model" % (vw.consumed, len(vw.rejections)))
     if vw.rejections:
